@@ -75,6 +75,7 @@ class RunState:
         self.first_dirs: dict[str, tuple[str, str, str]] = {}  # directories of each job's FIRST attempt
         self.job_outputs: dict[str, list[str]] = {}  # job -> output paths written
         self.lost_jobs: set[str] = set()
+        self.barrier = None
         # read-only transfers to a site with its own storage leave a physical replica: replica path -> path it copies
         self.replica_of: dict[str, str] = {}
         self.truly_lost: set[str] = set()  # lost jobs with at least one output of which no copy at all was left
@@ -326,6 +327,16 @@ class GateCommand(Command):
         run.first_dirs.setdefault(job.name, run.job_dirs[job.name])
         n, fault = run.hit(job.name, "execute")
         await _gate(f"job:{job.name}#{n}")
+        if fault is not None and fault.get("barrier") and n == 0:
+            # simultaneous failures (a node crash takes several jobs down at the same instant): the failing jobs of the
+            # plan wait for each other and then fail back to back, with nothing else happening in between
+            if run.barrier is None:
+                run.barrier = [0, asyncio.Event()]
+            run.barrier[0] += 1
+            if run.barrier[0] >= sum(1 for f in run.plan if f.get("barrier") and f["phase"] == "execute"):
+                run.barrier[1].set()
+            else:
+                await run.barrier[1].wait()
         if fault is not None:
             run.failure_log.append((job.name, "execute", fault["kind"]))
             run.fail_sites.append((job.name, self.step.name))
